@@ -269,6 +269,38 @@ def run_class(ctx, key):
             for p in subset:
                 cands = S.params[key][p]
                 chosen[p] = full_choice[p] if (shape != 'random' and si % 2 == 0 and rng.random() < 0.5) else rng.choice(cands)
+            # list-valued fields: several different elements, in an order of the caller's choosing (ascending, descending,
+            # shuffled, with a repeat) - the order of a list is part of the value
+            for p in list(chosen):
+                kind_, val_ = chosen[p]
+                if not isinstance(val_, list) or rng.random() < 0.4:
+                    continue
+                longer = None
+                if kind_.startswith('list_obj:'):
+                    k2 = kind_[len('list_obj:'):]
+                    made = [S.make(k2, rng) for _ in range(rng.randrange(2, 5))]
+                    made = [m_ for m_ in made if m_ is not None]
+                    if len(made) >= 2:
+                        longer = made
+                elif kind_.startswith('list_enum:'):
+                    members = list(getattr(enums, kind_[len('list_enum:'):]))
+                    longer = rng.sample(members, min(len(members), rng.randrange(2, 5)))
+                elif kind_ == 'list_str' and len(val_) >= 2:
+                    longer = list(val_)
+                    rng.shuffle(longer)
+                if longer:
+                    how = rng.choice(('as-is', 'reversed', 'shuffled', 'repeat'))
+                    if how == 'reversed':
+                        longer = longer[::-1]
+                    elif how == 'shuffled':
+                        rng.shuffle(longer)
+                    elif how == 'repeat':
+                        longer = longer + [longer[0]]
+                    trial = dict(chosen)
+                    trial[p] = (kind_, longer)
+                    if fresh(S, key, trial) is not None:
+                        chosen = trial
+                        ctx.count('multi_element_lists')
             x = fresh(S, key, chosen)
             if x is None:
                 ctx.count('not_constructible')
